@@ -80,7 +80,7 @@ func c08Gen(r *driver.Rand, thorough bool) *driver.Plan {
 	}
 	if r.Chance(1, 3) {
 		for i := range p.Consumers {
-			p.Consumers[i].StartMs = driver.Pick(r, 5, 30, 100)
+			p.Consumers[i].StartMs = driver.Pick(r, 5, 30, 100, 1500, 61000)
 		}
 	}
 	for i := range p.Consumers {
